@@ -81,6 +81,7 @@ TRead == /\ E.a = "Read" /\ Step1 /\ Keep /\ MRead
          /\ mreq'.seq = E.seq /\ mreq'.cmd = E.cmd
 TPauseCheck == MPauseCheck /\ Silent
 TSetPE == MSetPE /\ Silent
+TInspect == (MInspect \/ MInspectLock) /\ Silent    \* whether a snapshot was there is not logged; blocking shows as a Wedge
 ActKind(cmd) == CASE cmd \in {"continue", "disconnect"} -> "Continue" [] cmd = "pause" -> "Pause"
                   [] cmd = "next" -> "StepOver" [] cmd = "stepIn" -> "StepIn" [] cmd = "stepOut" -> "StepOut"
                   [] OTHER -> "none"
@@ -93,11 +94,11 @@ TAct ==
      \/ \* the repaired coordinator: a void Breakpoint stop is dropped AND execution resumed
         /\ cpc = "dropGenL" /\ E.kind = "Continue" /\ E.th = -1 /\ DoContinue
         /\ cpc' = "recv" /\ resumeDue' = (IF rt = "wait" THEN TRUE ELSE resumeDue)
-        /\ UNCHANGED <<bpGen, bpN, rt, stopId, chan, cstop, PE, gate, mvars, inq, wire, clvars, acts, answered, delivered, orderBad>>
+        /\ UNCHANGED <<bpGen, bpN, rt, stopId, inCycle, chan, cstop, PE, gate, mvars, inq, wire, clvars, acts, answered, delivered, orderBad>>
      \/ \* after disconnect: stop_runner() clears the breakpoints and continues once more
         /\ mpc = "exit" /\ cpc # "dropGenL" /\ E.kind = "Continue" /\ DoContinue
         /\ resumeDue' = (IF rt = "wait" THEN TRUE ELSE resumeDue)
-        /\ UNCHANGED <<bpGen, bpN, rt, stopId, chan, cvars, PE, gate, mvars, inq, wire, clvars, acts, answered, delivered, orderBad>>
+        /\ UNCHANGED <<bpGen, bpN, rt, stopId, inCycle, chan, cvars, PE, gate, mvars, inq, wire, clvars, acts, answered, delivered, orderBad>>
   /\ mode' = E.ma
 TSetBps ==
   /\ E.a = "SetBps" /\ Step1 /\ Keep
@@ -105,7 +106,7 @@ TSetBps ==
 TClearBps ==
   /\ E.a = "ClearBps" /\ Step1 /\ Keep /\ mpc = "exit"
   /\ bpGen' = 0 /\ bpN' = 0
-  /\ UNCHANGED <<mode, pending, stepOn, rt, stopId, chan, cvars, PE, gate, mvars, inq, wire, clvars, acts, answered, delivered, orderBad, resumeDue>>
+  /\ UNCHANGED <<mode, pending, stepOn, rt, stopId, snap, inCycle, chan, cvars, PE, gate, mvars, inq, wire, clvars, acts, answered, delivered, orderBad, resumeDue>>
 TLogResponse ==
   /\ E.a = "Log" /\ E.kind = "response" /\ Step1 /\ Keep
   /\ mpc \in {"resp", "respNG"} /\ E.rseq = mreq.seq /\ E.cmd = mreq.cmd
@@ -161,7 +162,7 @@ TExit == /\ E.a = "Exit" /\ Step1 /\ Keep /\ UNCHANGED vars
 \* is not a step of the specification: the run is rejected at that event).  All of them depend on logged
 \* events only, never on where TLC placed a silent step.
 StepInvariants == NoDuplicateStopped /\ NoStoppedAfterResume /\ WaitHasCause /\ (LenientOrder \/ ResponseBeforeLaterStop)
-TStep == TSend \/ TRecvResponse \/ TRecvStopped \/ TTerminated \/ TRead \/ TPauseCheck \/ TSetPE \/ TAct \/ TSetBps
+TStep == TSend \/ TRecvResponse \/ TRecvStopped \/ TTerminated \/ TRead \/ TPauseCheck \/ TSetPE \/ TInspect \/ TAct \/ TSetBps
          \/ TClearBps \/ TLogResponse \/ TRtStop \/ TRtWake \/ TRtResume \/ TCRecv \/ TCPE \/ TCGen \/ TCEmit \/ TCDrop
          \/ TLogStopped \/ TQuiesce \/ TExit
 TNext == More /\ TStep /\ StepInvariants'
